@@ -177,3 +177,24 @@ _R9 = {
 for _pid, _t in _R9.items():
     _lvl, _tech, _txt = CHECKS[_pid]
     CHECKS[_pid] = (_lvl, _tech, _txt + _t)
+
+# ---- additions of round 10 / round K
+_R10 = {
+    "C02": " Round 10: the session handler re-adds the client's own cookies as sent (C10.R restore:* borrowed).",
+    "C03": " Round 10: the stand-alone proxy copies the body from the handler's own goroutine with no helper goroutine on the writer (C01.K borrowed).",
+    "C04": " Round 10: the backend-facing reverse proxy keeps its stock error handling (no re-serving ErrorHandler).",
+    "C05": " Round 10: the replay refusal conditions of C06.R are armed here too.",
+    "C06": " Round 10: the source reader is part of the mutex-guarded replay state (no read of it with the lock released).",
+    "C07": " Round 10: receives of pointers from shim channels that get closed test ok (or nil) before the dereference.",
+    "C08": " Round 10: no step of the list call that failed is answered with a nil error.",
+    "C09": " Round 10: injected headers are those of the request that carries the push (C11.J borrowed).",
+    "C10": " Round 10: sessions leave the cache only by LRU eviction.",
+    "C11": " Round 10: sessions are forgotten only by close or by the poll that delivered what was received (C12.U borrowed); nothing serialised or received is dropped or parked by ReadServerMessages.",
+    "C16": " Round 10: Read hands out every decoded byte before it reports the end (C15.E borrowed).",
+    "C17": " Round 10: backend definitions are written by AddBackend only; a response is stored only for a request that was found (C17.W).",
+    "C18": " Round 10: every successful AddBackend puts the tracker back to 'not seen'.",
+    "C19": " Round 10: the caching store caches the very value it writes through.",
+}
+for _pid, _t in _R10.items():
+    _lvl, _tech, _txt = CHECKS[_pid]
+    CHECKS[_pid] = (_lvl, _tech, _txt + _t)
